@@ -1,5 +1,5 @@
 (* C19 - property theorems only. *)
-From HV Require Import Prelude C19_Model C19_Check C19_Proofs C19_ProofsExit.
+From HV Require Import Prelude C19_Model C19_Check C19_Proofs C19_ProofsExit C19_ProofsLog.
 
 (* str.splitlines inverts "one entry per line", duplicates and empty entries included *)
 Theorem C19_splitlines_join : forall ids, Forall cleanP ids -> splitlines (join_lines ids) = ids.
@@ -271,3 +271,77 @@ Theorem C19_agree_index_sound : forall k ls, agree_index k = true -> c_index k =
   /\ (c_exit k <> 0 -> c_exit k = 1 /\ c_missing k <> []).
 Proof. exact agree_index_sound. Qed.
 Print Assumptions C19_agree_index_sound.
+
+(* ---- "reported", whatever ran before in the same process (model of haptools/logging.py getLogger) ---- *)
+
+(* on the code as it is, whether a run shows a message of level r on the stream its user watches is a function
+   of the run's own verbosity: the earlier getLogger calls of the process (any names, levels, streams) do
+   not matter *)
+Theorem C19_log_history_independent : forall root hist c r, 0 <= root ->
+  run_shows false root hist c r = shows root (cl_level c) r.
+Proof. exact run_shows_history_independent. Qed.
+Print Assumptions C19_log_history_independent.
+
+(* how often: once for the run's own handler and once more for every earlier call of the same name that was
+   made with the same stream and a level the record reaches (the duplicated lines of repeated API calls) *)
+Theorem C19_log_written_count : forall root hist c r, 0 <= root ->
+  run_written false root hist c r =
+  if shows root (cl_level c) r then 1 + lenZ (filter (echoes c r) hist) else 0.
+Proof. exact run_written_count. Qed.
+Print Assumptions C19_log_written_count.
+
+(* exactly once when no earlier call of that name used the run's stream (a fresh process; click's CliRunner) *)
+Theorem C19_log_written_once : forall root hist c r, 0 <= root ->
+  (forall c', In c' hist -> cl_name c' = cl_name c -> cl_stream c' <> cl_stream c) ->
+  run_written false root hist c r = if shows root (cl_level c) r then 1 else 0.
+Proof. exact run_written_once. Qed.
+Print Assumptions C19_log_written_once.
+
+Theorem C19_log_other_names_irrelevant : forall root hist c r, 0 <= root ->
+  run_written false root hist c r = run_written false root (filter (same_name (cl_name c)) hist) c r.
+Proof. exact run_written_other_names. Qed.
+Print Assumptions C19_log_other_names_irrelevant.
+
+(* the variant "return the logger as it is when it already has a handler": the FIRST call of the name
+   decides, with its level and its stream, what every later run shows *)
+Theorem C19_log_reuse_first_call_decides : forall root hist c r, 0 <= root ->
+  run_shows true root hist c r =
+  shows root (cl_level c) r &&
+  match find (same_name (cl_name c)) hist with
+  | None => true
+  | Some c0 => (cl_level c0 <=? r) && (cl_stream c0 =? cl_stream c)
+  end.
+Proof. exact run_shows_reuse. Qed.
+Print Assumptions C19_log_reuse_first_call_decides.
+
+(* ... refuted: the Python entry point (ERROR) and then the command line at the default verbosity lose the
+   warning about an unknown entry *)
+Example C19_log_reuse_refuted :
+  let api := mkcall 0 40 0 in
+  let cli := mkcall 0 20 1 in
+  run_shows true 30 [api] cli 30 = false
+  /\ shows 30 (cl_level cli) 30 = true
+  /\ run_shows false 30 [api] cli 30 = true
+  /\ run_shows true 30 [mkcall 0 40 7] (mkcall 0 20 7) 30 = false
+  /\ run_shows true 30 [mkcall 0 20 1] (mkcall 0 20 2) 30 = false
+  /\ run_shows true 30 [mkcall 3 40 0] cli 30 = true
+  /\ run_shows true 30 [mkcall 0 10 7] (mkcall 0 20 7) 30 = true.
+Proof. exact reuse_refuted. Qed.
+Print Assumptions C19_log_reuse_refuted.
+
+Example C19_log_duplicated_lines_example :
+  run_written false 30 [mkcall 0 40 0; mkcall 0 20 0] (mkcall 0 20 0) 40 = 3
+  /\ run_written false 30 [mkcall 0 40 0; mkcall 0 20 0] (mkcall 0 20 0) 30 = 2
+  /\ run_written false 30 [mkcall 0 40 0; mkcall 0 20 0] (mkcall 0 20 1) 30 = 1
+  /\ run_written false 30 [] (mkcall 0 0 1) 20 = 0
+  /\ run_written false 30 [] (mkcall 0 0 1) 30 = 1.
+Proof. exact duplicated_lines_example. Qed.
+Print Assumptions C19_log_duplicated_lines_example.
+
+(* what agreement of the observed CLI run with that model means: a record created on the subcommand's logger is
+   among the printed lines exactly when the run's own -v level lets it through *)
+Theorem C19_agree_log_sound : forall k, agree_log k = true ->
+  forall r, In r (c_recs k) ->
+  (In r (c_printed k) <-> shows ROOT_LEVEL (cl_level (c_call k)) (fst r) = true).
+Proof. exact agree_log_sound. Qed.
+Print Assumptions C19_agree_log_sound.
